@@ -30,7 +30,7 @@ RULE = ("3 hand-written specimen projects (package, relative imports, class hier
         "file, outcome class, number of files changed)")
 ASSUMPTIONS = ["only FileSystemCommands is driven (no VCS back ends)", "audit events are complete for pure-Python "
                "writes (open/os/shutil); rope has no native code"]
-BUDGET = {"quick": (100000, 80), "thorough": (1000000, 480)}
+BUDGET = {"quick": (100000, 240), "thorough": (1000000, 900)}
 EXHAUSTIVE = {"quick": True, "thorough": True}
 CASE_TIMEOUT = 600
 REQUIRE = {"computed": 2000, "performed": 200, "refused": 500, "audit_events_in_do": 200}
